@@ -134,11 +134,11 @@ package dbft
 //@   modifies nothing
 //@ func (*Context).F
 //@   requires nvalid()
-//@   ensures [C06] result == specF(len(c.Validators))
+//@   ensures [C06,C01] result == specF(len(c.Validators))
 //@   modifies nothing
 //@ func (*Context).M
 //@   requires nvalid()
-//@   ensures [C06] result == specM(len(c.Validators))
+//@   ensures [C06,C01] result == specM(len(c.Validators))
 //@   modifies nothing
 //@ func (*Context).GetPrimaryIndex
 //@   requires nvalid()
@@ -147,7 +147,7 @@ package dbft
 //@   modifies nothing
 
 //@ lemma [C06] faultBound(n) = implies(1 <= n && n <= 65535, 3*specF(n) + 1 <= n && n < 3*(specF(n)+1) + 1)
-//@ lemma [C06] quorumIntersection(n) = implies(1 <= n && n <= 65535, 2*specM(n) - n >= specF(n) + 1)
+//@ lemma [C06,C01] quorumIntersection(n) = implies(1 <= n && n <= 65535, 2*specM(n) - n >= specF(n) + 1)
 //@ lemma [C06] quorumNeedsNoFaulty(n) = implies(1 <= n && n <= 65535, specM(n) <= n - specF(n) && specM(n) >= 1)
 //@ lemma [C06] rotationViews(n, h, v1, v2) = implies(1 <= n && n <= 65535 && 0 <= h && h <= 4294967295 && 0 <= v1 && v1 < v2 && v2 <= 255 && v2 - v1 < n, emod(h - v1, n) != emod(h - v2, n))
 //@ lemma [C06] rotationHeights(n, h1, h2, v) = implies(1 <= n && n <= 65535 && 0 <= h1 && h1 < h2 && h2 <= 4294967295 && 0 <= v && v <= 255 && h2 - h1 < n, emod(h1 - v, n) != emod(h2 - v, n))
@@ -262,6 +262,8 @@ package dbft
 //@        && implies(canMakeHeader() && self.header == nil, forall(i, 0, NN(), !curC(i)))
 //@ pred verp() = implies(self.preBlock != nil, forall(i, 0, NN(), implies(curP(i), verP(i))))
 //@ pred tip() = self.BlockIndex == gTipHeight + 1 && self.PrevHash == gTipHash
+//@ pred cleanProposal() = isnil(self.TransactionHashes) && len(self.TransactionHashes) == 0 && len(self.Transactions) == 0 && forallOf(Transaction, t, !has(self.Transactions, t.Hash()))
+//@        && len(self.MissingTransactions) == 0 && self.header == nil && self.block == nil && self.preHeader == nil && self.preBlock == nil
 
 //@ bundle INV
 //@   ensures [C11] @wf wf()
@@ -341,6 +343,8 @@ package dbft
 //@   requires ts + self.TimestampIncrement <= 18446744073709551615
 //@   use INV
 //@   ensures self.ViewNumber == view
+//@   ensures [C05,C04,C12] @cleanProposal cleanProposal()
+//@   ensures [C05] @cleanHeight implies(view == 0, !self.blockProcessed && !self.preBlockProcessed && !self.txSubscriptionOn && self.lastBlockTimestamp == ts)
 //@   ensures implies(view > 0, sameHeight() && unchanged(self.CommitPayloads, self.PreCommitPayloads, self.preBlockProcessed, self.blockProcessed))
 //@   ensures forall(i, 0, NN(), self.PreparationPayloads[i] == nil && self.ChangeViewPayloads[i] == nil) && implies(view == 0, forall(i, 0, NN(), self.CommitPayloads[i] == nil && self.PreCommitPayloads[i] == nil))
 //@   modifies Context.*, heap HeightView.*, gTipHeight, gTipHash
@@ -489,12 +493,14 @@ package dbft
 //@ func (*DBFT).checkPrepare
 //@   use U
 //@   requires [C13] @silent notWatchOnly()
-//@   loop 1: invariant 0 <= count && count <= idx && implies(hasRequest, rsor()) && count == count(j, 0, idx, curPrep(j))
+//@   loop 1: invariant 0 <= count && count <= idx && implies(hasRequest, rsor())
+//@   loop 1: invariant [C04] @counts count == count(j, 0, idx, curPrep(j))
 //@ func (*DBFT).checkPreCommit
 //@   use U
 //@   requires [C07] @enabled amev()
 //@   requires rsor()
-//@   loop 1: invariant 0 <= count && count <= idx && count == count(j, 0, idx, curP(j))
+//@   loop 1: invariant 0 <= count && count <= idx
+//@   loop 1: invariant [C07,C02] @counts count == count(j, 0, idx, curP(j))
 //@   at call d.ProcessPreBlock: assert [C07,C02] @certificate !self.preBlockProcessed && preCommitCount() >= specM(NN()) && hasAllTx() && arg0 == self.preBlock && arg0 != nil
 //@   at call d.ProcessPreBlock: assert [C02] @verified verp()
 //@ callers [C07] Config.ProcessPreBlock : (*DBFT).checkPreCommit
@@ -502,12 +508,14 @@ package dbft
 //@ func (*DBFT).checkCommit
 //@   use U
 //@   requires canMakeHeader()
-//@   loop 1: invariant 0 <= count && count <= idx && count == count(j, 0, idx, curC(j))
+//@   loop 1: invariant 0 <= count && count <= idx
+//@   loop 1: invariant [C02,C01] @counts count == count(j, 0, idx, curC(j))
 //@   at call d.ProcessBlock: assert [C02,C01] @certificate commitCount() >= specM(NN()) && hasAllTx() && arg0 == self.header && arg0 != nil && verc() && prop() && tip()
 //@ callers [C02,C05] Config.ProcessBlock : (*DBFT).checkCommit
 //@ func (*DBFT).checkChangeView
 //@   use U
-//@   loop 1: invariant 0 <= count && count <= idx && count == count(j, 0, idx, self.ChangeViewPayloads[j] != nil && self.ChangeViewPayloads[j].GetChangeView().NewViewNumber() >= view)
+//@   loop 1: invariant 0 <= count && count <= idx
+//@   loop 1: invariant [C04] @counts count == count(j, 0, idx, self.ChangeViewPayloads[j] != nil && self.ChangeViewPayloads[j].GetChangeView().NewViewNumber() >= view)
 
 // ---- dbft.go ----
 
